@@ -400,3 +400,38 @@ def run(ctx):
             tm.rel,
             line,
         )
+
+    # ---- C27.7 per-job decisions read the job's effective options ---------------------------------
+    # Job.get_raw_options is the one place where the option layers are merged.  Code that decides something for a *job* from
+    # `job.task.get_task_option(s)` or `job.expr._options` sees only the definition-time and call-time layers: options exported by an ancestor
+    # job and options imposed by the scheduler are invisible to it (e.g. array grouping that treats jobs with different inherited memory as equal).
+    r7 = ctx.rule("C27.7", "outside Job's option machinery nothing reads a job's options from its task or expression directly", floor=1)
+    BYPASS_OK = {
+        ("redun/scheduler.py", "Job.get_raw_options"): "the merge itself",
+        ("redun/scheduler.py", "Scheduler._record_job_tags"): "task tags are a definition-time attribute of the task value, recorded per task",
+    }
+    nby = 0
+    for mod in repo.modules.values():
+        if mod.rel.startswith("redun/tests"):
+            continue
+        for n in ast.walk(mod.tree):
+            hit = None
+            if isinstance(n, ast.Attribute) and n.attr == "_options" and isinstance(n.value, ast.Attribute) and n.value.attr == "expr":
+                hit = src(n.value.value)
+            elif isinstance(n, ast.Call) and isinstance(n.func, ast.Attribute) and n.func.attr in ("get_task_option", "get_task_options") and isinstance(n.func.value, ast.Attribute) and n.func.value.attr == "task":
+                hit = src(n.func.value.value)
+            if hit is None or not (hit == "self" and (mod.enclosing_class(n) is not None and mod.enclosing_class(n).name == "Job") or "job" in hit.lower()):
+                continue
+            nby += 1
+            q = mod.enclosing_qual(n)
+            ok = (mod.rel, q) in BYPASS_OK
+            r7.check(
+                ok,
+                f"{mod.rel}:{q}:option-bypass:{src(n)[:40]}",
+                f"{q} reads `{src(n)[:60]}` for a job instead of job.get_options()/get_option(): options the job inherits from an exporting ancestor (or that the scheduler imposes) are ignored there, so the "
+                "decision taken for the job disagrees with the options the job actually runs under",
+                mod.rel,
+                n.lineno,
+            )
+    if nby < 2:
+        raise AnalysisError(f"only {nby} direct option reads found (Job.get_raw_options itself should be among them)", "Job.get_raw_options")
